@@ -153,15 +153,25 @@ Fixpoint read_exact (fuel : nat) (h : bytes) (n : Z) (acc : bytes) : M bytes :=
          end
        end.
 
-(* read_exact_alloc(size as u64): vec![0; size as usize] then read_exact *)
+(* read_exact_alloc: the buffer grows in 64 KiB steps, one read_exact per step *)
+Definition read_chunk : Z := 65536.
+Fixpoint read_chunks (fuel : nat) (h : bytes) (remaining : Z) (acc : bytes) : M bytes :=
+  if remaining <=? 0 then ret acc
+  else match fuel with
+       | O => fail EOutOfFuel
+       | S f =>
+           let n := Z.min remaining read_chunk in
+           let+ b := with_fuel (fun g => read_exact g h n []) in
+           read_chunks f h (remaining - n) (acc ++ b)
+       end.
 Definition read_exact_alloc (h : bytes) (size : Z) : M bytes :=
-  if size <? 0 then mpanic (tag "capacity overflow")
-  else if alloc_limit <=? size then lift alloc_panic
-  else with_fuel (fun f => read_exact f h size []).
+  with_fuel (fun f => read_chunks f h size []).
 
+(* __get_response_size: a negative size is a CodecError *)
 Definition get_response_size (h : bytes) : M Z :=
   let+ b := with_fuel (fun f => read_exact f h 4 []) in
-  ret (be_dec_s b).
+  let size := be_dec_s b in
+  if size <? 0 then fail ECodec else ret size.
 
 (* ---- Connections ---------------------------------------------------------------- *)
 Definition idle_expired (c : config) : bool :=
